@@ -12,7 +12,7 @@ PROP = {
         ],
         "lanes": [
             native("c03"),
-            miri("c03", seeds_q=4, seeds_t=48, scale=1, args={"min-ops": 12, "max-ops": 30, "check-every": 4, "programs": {"quick": 2, "thorough": 6}},
+            miri("c03", seeds_q=4, seeds_t=40, scale=1, args={"min-ops": 12, "max-ops": 30, "check-every": 4, "programs": {"quick": 2, "thorough": 5}},
                  timeout={"quick": 600, "thorough": 3000}),
             san("tsan", "c03", scale=15),
         ],
